@@ -1,5 +1,6 @@
 import PySMT.Core.DriverLib
 import PySMT.Impl.Simplifier
+import PySMT.Impl.Model
 /-! Driver of C01 (and of the `simp` part of C02).
 
 * `simp <term>`  → `encTerm (simp t)` | `out-of-fragment` (some operator of `t` has no rule yet) | `bad-shape` (`t.wf = false`:
@@ -7,6 +8,8 @@ import PySMT.Impl.Simplifier
 * `rule <term>`  → for `t = node op args p`: `encTerm (rule_op p args)` — ONE rule application to the given (already
   simplified) arguments, whatever they are | `out-of-fragment`
 * `frag <term>`  → `true`/`false` : `inFrag t` (rules and guards: the fragment the theorems cover)
+* `getvalue <0|1> <n> (<hexname> <ty> <term>)*n <term>` → `Model.getValue completion asg f`: `encTerm c` | `none`
+  (the method raises) | `out-of-fragment`
 -/
 open PySMT PySMT.DriverLib PySMT.Wire PySMT.Simplifier
 
@@ -25,6 +28,15 @@ def main : IO Unit := loop fun line =>
         match ruleOf op with
         | some e => return encTerm (e.rule p args)
         | none => return "out-of-fragment") toks
+  | some "getvalue" => handle (do
+      let c ← nat
+      let n ← nat
+      let asg ← rep n (do let nm ← str; let ty ← Wire.ty; let v ← term; return (Sym.var nm ty, v))
+      let f ← term
+      if !hasRules f || !(asg.all fun kv => hasRules kv.2) then return "out-of-fragment"
+      match Model.getValue (c != 0) asg f with
+      | some r => return encTerm r
+      | none => return "none") toks
   | some "frag" => handle (do let t ← term; return toString (inFrag t)) toks
   | _ => match coreAnswer toks with
     | some a => a
